@@ -125,7 +125,16 @@ func checkC18(c *mc.Ctx) {
 	}
 	if c.Thorough() {
 		scens["cc-wrap-17"] = append(append([]MOp{}, setupAB...), opDataA17, opDataB17, opTables)
-		for l := 160; l <= 175; l++ {
+		for _, af := range []string{"raipcr", "priv10", "splice", "ext", "priv0", "noroompcr", "noroomstuff", "priv167"} {
+			scens["af-"+af] = append(append([]MOp{}, setupA...), MOp{K: "data", PID: 0x100, Len: 200, AF: af}, MOp{K: "data", PID: 0x100, Len: 169, AF: af}, opDataA1)
+		}
+		for n := 0; n < nHdrShapes; n += 7 {
+			scens[fmt.Sprintf("hdr-shape-%d", n)] = append(append([]MOp{}, setupA...), MOp{K: "data", PID: 0x100, Len: 120, Hdr: fmt.Sprintf("s%d", n)}, MOp{K: "data", PID: 0x100, Len: 190, Hdr: fmt.Sprintf("s%d", n)})
+		}
+		for _, pk := range []string{"null", "ownpid", "afonly", "short", "shortaf", "priv0pkt", "big", "stalebig", "afwrap", "af252"} {
+			scens["pkt-"+pk] = append(append([]MOp{}, setupA...), opDataA1, MOp{K: "pkt", Pkt: pk}, opDataA1)
+		}
+		for l := 1; l <= 400; l++ {
 			scens[fmt.Sprintf("stuffing-len-%d", l)] = append(append([]MOp{}, setupA...), MOp{K: "data", PID: 0x100, Len: l}, MOp{K: "data", PID: 0x100, Len: l + 184})
 		}
 	}
